@@ -94,10 +94,10 @@ def rand_tree(rng, depth=3):
     return d
 
 
-DICT_OPS = ['setitem', 'setitem', 'delitem', 'setattr', 'delattr', 'update', 'update_kw', 'setdefault', 'pop', 'pop_default', 'clear',
+DICT_OPS = ['setitem', 'setitem', 'delitem', 'setattr', 'delattr', 'update', 'update_kw', 'update_only_kw', 'setdefault', 'pop', 'pop_default', 'clear',
             'set_child', 'remove_child', 'rename_child']
 LIST_OPS = ['setitem', 'setitem', 'delitem', 'append', 'append', 'insert', 'insert', 'extend', 'remove', 'pop', 'pop_index', 'clear',
-            'set_child', 'remove_child', 'rename_child']
+            'set_child', 'remove_child', 'rename_child', 'extend_self']
 
 
 def gen_case(rng, tier):
@@ -183,6 +183,9 @@ def apply_ref(kind, name, ref, key, val, vals, op):
         if name == 'update_kw':
             ref.update({key: val}, a=vals)
             return None
+        if name == 'update_only_kw':
+            ref.update(a=val, c=vals)
+            return None
         if name == 'setdefault':
             return ref.setdefault(key, val)
         if name == 'pop':
@@ -216,6 +219,9 @@ def apply_ref(kind, name, ref, key, val, vals, op):
             return None
         if name == 'extend':
             ref.extend(vals)
+            return None
+        if name == 'extend_self':
+            ref.extend(list(ref))          # (as in python: nested containers are the same objects at both positions afterwards)
             return None
         if name == 'remove':
             ref.remove(val)
@@ -263,6 +269,8 @@ def apply_real(kind, name, node, key, val, vals, op):
             node.update({key: val, 'b': vals})
         elif name == 'update_kw':
             node.update({key: val}, a=vals)
+        elif name == 'update_only_kw':
+            node.update(a=val, c=vals)
         elif name == 'setdefault':
             return node.setdefault(key, val)
         elif name == 'pop':
@@ -287,6 +295,8 @@ def apply_real(kind, name, node, key, val, vals, op):
             node.insert(key, val)
         elif name == 'extend':
             node.extend(vals)
+        elif name == 'extend_self':
+            _bounded(lambda: node.extend(node), 0.3)
         elif name == 'remove':
             node.remove(val)
         elif name == 'pop':
@@ -302,8 +312,31 @@ def apply_real(kind, name, node, key, val, vals, op):
     return None
 
 
-MIRRORS_BUILTIN = {'setitem', 'delitem', 'append', 'insert', 'extend', 'remove', 'pop', 'pop_index', 'pop_default', 'clear', 'update',
-                   'update_kw', 'setdefault'}
+class Hang(Exception):
+    pass
+
+
+def _bounded(fn, seconds):
+    """run fn under a short interval timer of its own: an operation that does not come back is a finding, not a case time-out"""
+    import signal
+    old_handler = signal.getsignal(signal.SIGALRM)
+    old_left, _ = signal.getitimer(signal.ITIMER_REAL)
+
+    def on_alarm(signum, frame):
+        raise Hang(f'operation did not return within {seconds} s')
+    signal.signal(signal.SIGALRM, on_alarm)
+    signal.setitimer(signal.ITIMER_REAL, seconds)
+    try:
+        return fn()
+    finally:
+        signal.setitimer(signal.ITIMER_REAL, 0)
+        signal.signal(signal.SIGALRM, old_handler)
+        if old_left:
+            signal.setitimer(signal.ITIMER_REAL, max(0.05, old_left - seconds))
+
+
+MIRRORS_BUILTIN = {'setitem', 'delitem', 'append', 'insert', 'extend', 'extend_self', 'remove', 'pop', 'pop_index', 'pop_default', 'clear', 'update',
+                   'update_kw', 'update_only_kw', 'setdefault'}
 
 
 def run(case):
@@ -349,8 +382,8 @@ def run(case):
                 name = 'setitem' if name == 'setattr' else 'delitem'
         else:
             key = pick_index(op, len(rcont))
-            if name == 'remove':
-                pass
+            if name == 'extend_self' and any(isinstance(x, (dict, list)) for x in rcont):
+                name = 'extend'          # (with nested containers both positions would hold the same objects afterwards, as in python: not what is tested here)
         val = copy.deepcopy(op['value'])
         if kind == 'list' and name == 'remove' and rcont and op['r2'] < 0.7:
             val = copy.deepcopy(rcont[int(op['r'] * len(rcont))])
@@ -373,6 +406,9 @@ def run(case):
             got = ('ok', apply_real(kind, name, node, key, rval, vals, op))
         except Exception as e:
             got = ('err', e)
+        if got[0] == 'err' and isinstance(got[1], Hang):
+            vio.append({'mech': 'does-not-terminate:' + f'{kind}.{name}', 'what': f'step {step}: {kind}.{name} on the container at {list(path)!r} ({len(rcont)} element(s) before): {got[1]}; history={history!r}; start={case["tree"]!r}'})
+            break
         did_list |= kind == 'list' and got[0] == 'ok'
         did_dict |= kind == 'dict' and got[0] == 'ok'
         where = f'step {step}: {kind}.{name}(key={key!r}, value={val!r}) on the container at {list(path)!r}'
